@@ -48,7 +48,7 @@ func throughAlloc(v ssa.Value) ssa.Value {
 }
 
 func checkC19(c *Ctx) {
-	c.explainf("C19 decides the structural half of interning: the two symbol tables and the counter are written only by the interning routine and the constructors; both tables are updated together with swapped key and value; the number given to a new name was tested unused in the reverse table with no change of the counter in between; a known name yields its recorded number; a generated name is tested absent from the name table before it is interned; clones and duplicates share both tables by reference; symbol comparison and hashing read the number only. It does not decide agreement with a model over creation histories.")
+	c.explainf("C19 decides the structural half of interning: the two symbol tables and the counter are written only by the interning routine and the constructors; both tables are updated together with swapped key and value; the number given to a new name was tested unused in the reverse table with no change of the counter in between; a known name yields its recorded number; a generated name is tested absent from the name table before it is interned; clones and duplicates share both tables by reference; symbol comparison and hashing read the number only. Symbol keys of hashes are matched by number (C19-KEY); Compare is examined for dereferencing symbol operands (C19-DEREF). It does not decide agreement with a model over creation histories.")
 	if c.Prop == "C19" {
 		// symbols as data: keys and operands of ==. Not part of what a macro expansion relies on (C15 runs the interning rules only).
 		c.checkSymbolKeysByNumber("C19-KEY")
